@@ -1,5 +1,6 @@
 """C03 — wire decoder is crash-free, bounded and accepts exactly well-formed messages."""
 from .. import analysis as A
+from ..core import RuleAlias
 from .. import panics as P
 from ..analysis import Call, Path, Param, Konst
 from . import codec
@@ -77,6 +78,11 @@ def run(ctx):
     ctx.decline("agreement with a reference decoder on all inputs")
     ctx.rule("C03.4", "stack: no call cycle is reachable from Message::from_octets (so the stack depth is a constant of the program, not of the message) and no reachable function holds a large array local")
 
+    # the code tables the decoder reads types, classes, opcodes and rcodes through are the RFC's (C04.1, decided here as well:
+    # "reads them as an independent RFC 1035 decoder does")
+    if not isinstance(ctx, RuleAlias):
+        from . import C04
+        C04.run(RuleAlias(ctx, {"C04.1": "C03.7"}))
     fns = [f for f in P.reach_set(prog, [FROM_OCTETS]) if not f.derived]
     ctx.floor("C03.1", "functions reachable from Message::from_octets", len(fns), 15)
     d = P.Discharger(ctx, "C03.1", prog, justify(prog))
@@ -124,6 +130,16 @@ def run(ctx):
             end = codec.untry(dict(it[3])["end"]) if it[0] == "agg" else ("?",)
             ctx.check(end[0] == "call" and end[1] == CB + "next_u16", "C03.2", "Message::deserialise:count@%s" % md.loc(b).split(":")[-1], "section loop bound is a u16 read from the header",
                       "section loop bound is %s" % A.show(end)[:80], md.loc(b))
+
+    # every section is read to the count the header gives: a section loop is left only when its range is exhausted or by
+    # returning the element's error (no `break` on an error, whatever the flags say)
+    mdc = A.Conds(md, mr)
+    md_headers = {h for h, _ in md.loops()}
+    ok_rets = {b for b, e in A.return_exprs(md, mr) if A.peel(e)[0] == "agg" and A.peel(e)[2] == "Ok"}
+    early = [(h, a, s_) for h, a, s_ in A.early_loop_exits(md, mdc) if (md_headers | ok_rets) & set(A.reachable_tagged(md, s_))]
+    ctx.check(not early, "C03.2", "Message::deserialise:sections-complete", "a section loop ends only at its count or with the element's error",
+              "a section loop can be left early at %s and decoding goes on (fewer records than the header says are accepted)" % [md.loc(a) for h, a, s_ in early],
+              md.loc(early[0][1]) if early else md.loc())
 
     # ---------------------------------------------------------------- C03.3
     fkeys = {f.key for f in fns}
